@@ -70,7 +70,7 @@ def near_identity_writes(rng, writable, n):
 def matrix_cases(seed, ncases, nmax=8):
     rng = random.Random(seed)
     cases, metas = [], {}
-    ops = ["none", "add", "sub", "addassign", "subassign", "cadd", "csub", "cmul", "cmulmut"]
+    ops = ["none", "add", "sub", "addassign", "subassign", "subassignref", "cadd", "csub", "cmul", "cmulmut"]
     for c in range(ncases):
         n = rng.randint(1, nmax)
         a, wa, ka = rand_ctor(rng, n)
@@ -78,9 +78,10 @@ def matrix_cases(seed, ncases, nmax=8):
         near_id = op in ("none", "cmul", "add") and rng.random() < 0.3
         toks = ["matrix", "id=m%d" % c, "a=" + a, "aw=" + (near_identity_writes(rng, wa, n) if near_id else writes(rng, wa, n))]
         kb = None
-        if op in ("add", "sub", "addassign", "subassign"):
+        if op in ("add", "sub", "addassign", "subassign", "subassignref"):
             nb = n if rng.random() < 0.97 else rng.randint(1, nmax)
-            b, wb, kb = rand_ctor(rng, nb)
+            # the second operand is an Identity matrix more often than chance: several operators special-case it
+            b, wb, kb = rand_ctor(rng, nb, kind=("identity" if rng.random() < 0.2 else None))
             toks += ["b=" + b, "bw=" + writes(rng, wb, nb)]
             toks.append("op=" + op)
         elif op == "none":
